@@ -146,6 +146,12 @@ def judge(ctx, case):
     other = ec.ser(ec.mul_g(int(case["other"], 16)), comp)
     neg("an address derived from another key", case["msg"], o["compact"], hashes.hash160(other).hex())
     neg("the address of the same key in the other compression form", case["msg"], o["compact"], hashes.hash160(ec.ser(Q, not comp)).hex())
+    # the OTHER key for which the same (r, s) is a valid signature of this message: recovery with the y-parity bit inverted
+    alt = ec.recover(z, rr, ss, not e[2], e[3])
+    if alt is not None and alt != Q:
+        for c2 in (comp, not comp):
+            neg("the address of the key recovered with the other y-parity", case["msg"], o["compact"], hashes.hash160(ec.ser(alt, c2)).hex())
+        ctx.hit("alt_parity_key")
     cb = bytes.fromhex(o["compact"])
     for _ in range(8):
         bit = rnd.randrange(65 * 8)
